@@ -48,6 +48,9 @@ def guards_hold(recorded, current):
     """every recorded condition is still among the current ones — literally, or after dropping the spelling of
     arguments (a renamed loop variable changes `Lt(i,len)` into `Lt(idx,len)`)"""
     need, have = set(recorded), set(current)
+    # "an iteration before this point has run to its end" (`next()` answered None) constrains no value the site uses: a loop
+    # turned into an iterator adaptor (`for_each`, `collect`) has no such edge any more
+    need = {g for g in need if not re.match(r"^Iterator::next\(.*\) in \['None'\]$", g)}
     return need <= have or _sk_subsumed(need, have)
 
 
